@@ -119,7 +119,7 @@ static void body_oneshot_all(Tape &t, Ctx &c) {
 static void body_stream(Tape &t, Ctx &c) {
 	std::vector<dg::Seg> segs;
 	std::vector<uint8_t> data;
-	dg::gen(t, segs, 40000);
+	dg::gen(t, segs, 100000); // up to a whole 64 KiB incompressible block handed over in one piece
 	dg::expand(segs, data);
 	igz::DefOpts o;
 	o.level = (int) t.range(0, 3);
